@@ -115,8 +115,10 @@ fn build(cfg: &Cfg, spec: &Spec) -> Vec<u8> {
             Phdr::Dynamic => (2u32, Seg { off: DYN as u64, filesz: dyns.len() as u64 * dynsize, memsz: dyns.len() as u64 * dynsize, vaddr: va(DYN), flags: 6 }),
             Phdr::Note => (4u32, Seg { off: PAY as u64, filesz: 0x20, memsz: 0x20, vaddr: NOTE_VADDR, flags: 4 }),
         };
-        if cfg.is64 { w.u32(typ); w.u32(s.flags); w.u64(s.off); w.u64(s.vaddr); w.u64(s.vaddr); w.u64(s.filesz); w.u64(s.memsz); w.u64(8); }
-        else { w.u32(typ); w.u32(s.off as u32); w.u32(s.vaddr as u32); w.u32(s.vaddr as u32); w.u32(s.filesz as u32); w.u32(s.memsz as u32); w.u32(s.flags); w.u32(8); }
+        // p_paddr is deliberately NOT the virtual address (a loader must map at p_vaddr): a constant physical load address
+        let paddr: u64 = 0x10_0000 + (s.off & 0xfff);
+        if cfg.is64 { w.u32(typ); w.u32(s.flags); w.u64(s.off); w.u64(s.vaddr); w.u64(paddr); w.u64(s.filesz); w.u64(s.memsz); w.u64(8); }
+        else { w.u32(typ); w.u32(s.off as u32); w.u32(s.vaddr as u32); w.u32(paddr as u32); w.u32(s.filesz as u32); w.u32(s.memsz as u32); w.u32(s.flags); w.u32(8); }
     }
     assert!(w.at <= DYN);
     let put_syms = |w: &mut Img, at: usize, syms: &[Sym], names: &BTreeMap<&'static str, u32>| {
